@@ -24,7 +24,11 @@ class P:
             while True:
                 out.append(self.value())
                 if self.peek(','): self.eat(','); continue
-                self.eat('}'); return frozenset(out)
+                self.eat('}')
+                try:
+                    return frozenset(out)
+                except TypeError:           # a set of records: records are parsed to (unhashable) dicts
+                    return tuple(out)
         if c=='[':
             self.eat('['); out={}
             while True:
